@@ -14,6 +14,16 @@ CRITERIA_OPERATORS = {
 }
 
 
+def _kind(value):
+    """Rank of the value's type in the sort order (number, text, boolean)."""
+    value = func_xltypes.ExcelType.cast_from_native(value)
+    if isinstance(value, func_xltypes.Boolean):
+        return 2
+    if isinstance(value, func_xltypes.Text):
+        return 1
+    return 0
+
+
 def parse_criteria(criteria):
 
     if isinstance(criteria, (str, func_xltypes.Text)):
@@ -38,7 +48,12 @@ def parse_criteria(criteria):
             else:
                 break
 
+        ordering = str_operator in ('<', '<=', '>', '>=')
+
         def check(probe):
+            # "<5" only matches numbers, "<b" only texts.
+            if ordering and _kind(probe) != _kind(value):
+                return False
             return operator(probe, value)
 
         return check
